@@ -360,3 +360,39 @@ Proof.
   split; [|vm_compute; reflexivity]. split; [discriminate|].
   repeat constructor; unfold same_block; simpl; try lia; reflexivity.
 Qed.
+
+(* ---- shatter: number of pieces (no piece is smaller than it must be) --------------------- *)
+
+Lemma ceil_step c l : 1 <= l -> 1 <= c -> (c + l - 1) / l = 1 + (c - Z.min c l + l - 1) / l.
+Proof.
+  intros Hl Hc. destruct (Z.le_gt_cases c l) as [H|H].
+  - rewrite Z.min_l by lia. replace (c - c + l - 1) with (l - 1) by lia.
+    rewrite (Z.div_small (l - 1) l) by lia.
+    assert ((c + l - 1) / l = 1); [|lia].
+    replace (c + l - 1) with (1 * l + (c - 1)) by lia. rewrite Z.div_add_l by lia. rewrite Z.div_small; lia.
+  - rewrite Z.min_r by lia. replace (c + l - 1) with (1 * l + (c - l + l - 1)) by lia.
+    rewrite Z.div_add_l by lia. lia.
+Qed.
+
+Lemma shatter_go_count fuel : forall a c l, 1 <= l -> 0 <= c -> c <= Z.of_nat fuel * l ->
+  Z.of_nat (length (shatter_go fuel a c l)) = (c + l - 1) / l.
+Proof.
+  induction fuel as [|f IH]; intros a c l Hl Hc Hf.
+  - simpl in *. assert (c = 0) by lia. subst. rewrite Z.div_small; lia.
+  - cbn [shatter_go]. destruct (c =? 0) eqn:E.
+    + assert (c = 0) by lia. subst. simpl length. rewrite Z.div_small; lia.
+    + destruct (l =? 0) eqn:El; [lia|].
+      cbn [length]. rewrite Nat2Z.inj_succ. rewrite (IH (a + Z.min c l) (c - Z.min c l) l); try lia.
+      rewrite (ceil_step c l); lia.
+Qed.
+
+Lemma shatter_count a c limit : limit_wf limit -> 0 <= c ->
+  Z.of_nat (length (shatter a c limit)) = (c + eff_limit a limit - 1) / eff_limit a limit.
+Proof.
+  intros Hw Hc. unfold shatter. pose proof (eff_limit_pos a limit Hw) as Hl.
+  apply shatter_go_count; [lia | lia |].
+  rewrite Z2Nat.id; [|apply Z.div_pos; lia].
+  set (l := eff_limit a limit) in *. clearbody l.
+  pose proof (Z.div_mod (c + l - 1) l ltac:(lia)) as Hdm.
+  pose proof (Z.mod_pos_bound (c + l - 1) l ltac:(lia)) as Hmb. nia.
+Qed.
